@@ -66,22 +66,6 @@ func newCore() *Core {
 	return &Core{arrivals: make(chan *parked, 1<<14), driver: goid(), tags: map[*parked]string{}}
 }
 
-// goid returns the id of the calling goroutine.
-func goid() uint64 {
-	var buf [40]byte
-	n := runtime.Stack(buf[:], false)
-	// "goroutine 123 [running]:"
-	var id uint64
-	for i := len("goroutine "); i < n; i++ {
-		c := buf[i]
-		if c < '0' || c > '9' {
-			break
-		}
-		id = id*10 + uint64(c-'0')
-	}
-	return id
-}
-
 // park is called on system goroutines. It blocks durably (channel receive)
 // until the driver releases the record, and returns the release code.
 func (c *Core) park(point, name string, owner interface{}, attr lockAttr) int {
